@@ -624,3 +624,6 @@ def run_case(case):
   if case["sub"] == "c":
     return run_c(case)
   return run_a(case) if case["sub"] == "a" else run_b(case)
+
+# (appended: sub-lattices added after the seeded waves; kept out of the original RULE text for readability)
+RULE = RULE + '; programs include overlapping limit patterns and layer_indexes that leave a stand-alone activation outside; b also at model sizes of 1.3e8 and 2^31 bits with trials 1 and 4 bits apart; c: direct size-model cases and histories on one target (reference measured first, trials of other widths in both orders)'
